@@ -175,9 +175,9 @@ class Ctx:
             m = re.search(r"Invariant (\S+) is violated", line)
             if m:
                 r.violated = m.group(1)
-            m = re.search(r"Action property (\S+) is violated|Temporal properties were violated", line)
+            m = re.search(r"Action property (\S+) is violated|Temporal properties were violated|Temporal property (\S+) was violated", line)
             if m:
-                r.violated = m.group(1) or "temporal"
+                r.violated = m.group(1) or m.group(2) or "temporal"
             if "The postcondition is violated" in line or "Evaluating assumption PostCondition failed" in line \
                     or "POSTCONDITION" in line and "violated" in line:
                 r.postcondition_failed = True
